@@ -1,5 +1,5 @@
 SPECIFICATION TSpec
-CONSTANT MaxStreamId = 63
+CONSTANT MaxStreamId = 255
 INVARIANT PrefixInv
 POSTCONDITION TraceAccepted
 CHECK_DEADLOCK FALSE
